@@ -347,6 +347,47 @@ fn check_decode(rec: &mut Rec, bytes: &[u8; 24]) {
       }
     }
   }
+  // ... and as an element of a secret handed to the dealer (first and last chunk)
+  {
+    use rand_chacha::rand_core::SeedableRng;
+    let mut drng = rand_chacha::ChaCha8Rng::seed_from_u64(7);
+    let mut one = [0u8; 24];
+    one[0] = 1;
+    for slot in 0..2 {
+      let mut secret = Vec::with_capacity(48);
+      if slot == 0 {
+        secret.extend_from_slice(bytes);
+        secret.extend_from_slice(&one);
+      } else {
+        secret.extend_from_slice(&one);
+        secret.extend_from_slice(bytes);
+      }
+      rec.ev("decode_via_dealer");
+      let sh = star_sharks::Sharks(1);
+      let res = sh.dealer_rng(&secret, &mut drng);
+      match res {
+        Ok(mut ev) => {
+          if !canonical {
+            rec.violation(
+              "encoding:noncanonical-accepted-by-dealer",
+              format!("a secret whose element {} encodes {} >= p was accepted by the dealer", slot, v),
+              json!({"kind":"dealer","bytes":hex(bytes),"slot":slot}),
+            );
+          } else if let Some(s) = ev.next() {
+            // threshold 1: the share values are the secret's elements
+            if s.y.len() != 2 || s.y[slot].to_repr().as_ref() != &bytes[..] {
+              rec.violation("encoding:dealer-value", format!("the dealer altered the canonical element {}", hex(bytes)), json!({"bytes":hex(bytes),"slot":slot}));
+            }
+          }
+        }
+        Err(_) => {
+          if canonical {
+            rec.violation("encoding:canonical-rejected-by-dealer", format!("the dealer refused the canonical element {}", hex(bytes)), json!({"bytes":hex(bytes),"slot":slot}));
+          }
+        }
+      }
+    }
+  }
   match (canonical, got) {
     (true, Some(f)) => {
       let back = f.to_repr();
